@@ -39,6 +39,20 @@ def gen(rnd, n, m, cls):
         if cls == 'addsuffix': return base + blk, base
         long = [rnd.randrange(50) for _ in range(n + a)]
         return long[a:], long[:n]                                 # sliding window
+    # many insert-only (or delete-only) windows spread along the list: the target is the source with a block of r new
+    # elements before every c common ones (or the other way round); what base cases allocate and keep alive until the
+    # final collect is multiplied by the number of windows, so a per-window cost that depends on the window's POSITION
+    # rather than its length shows up here and nowhere else
+    if cls in ('runs-ins', 'runs-del'):
+        r, c = rnd.choice([(16, 16), (16, 16), (32, 32), (17, 13), (24, 8), (9, 9)])
+        lead = rnd.choice([0, 0, 5])
+        long, short = [rnd.randrange(50) for _ in range(lead)], [rnd.randrange(50) for _ in range(lead)]
+        short = list(long)
+        while len(long) < n:
+            blk = [100 + rnd.randrange(50) for _ in range(r)]
+            com = [rnd.randrange(50) for _ in range(c)]
+            long += blk + com; short += com
+        return (long, short) if cls == 'runs-ins' else (short, long)
     raise ValueError(cls)
 
 
@@ -64,6 +78,15 @@ def cases(tier, seed):
                 out.append((cls, t, s, True))
         for n in rel_big:
             for _ in range(reps):
+                t, s = gen(rnd, n, n, cls)
+                out.append((cls, t, s, False))
+    for cls in ('runs-ins', 'runs-del'):
+        for n in ([256, 1000] if tier == 'quick' else [256, 600, 1000]):
+            for _ in range(2):
+                t, s = gen(rnd, n, n, cls)
+                out.append((cls, t, s, True))
+        for n in ([4096] if tier == 'quick' else [4096, 8192, 20000]):
+            for _ in range(3 if tier == 'quick' else 6):
                 t, s = gen(rnd, n, n, cls)
                 out.append((cls, t, s, False))
     return out
@@ -134,7 +157,7 @@ def run(res, ctx):
     def search():
         return []
 
-    cov = {'explanation': 'Lean theorem C18.peak_cells_linear: the cost model (peak live table cells of the divide-and-conquer recursion, same split points as the model of the algorithm) is bounded by (cutoff+3)(n+m+1) for all lists; tie: a counting global allocator measures the peak heap growth of the REAL hirschberg and of diff() on a derived struct with an ordered_array_like field, for eleven content classes and sizes up to 6000 (quick) / 30000 (thorough), and requires it to stay below 16 B x that bound + 8 B x (n+m) + 128 B x script entries + slack; for sizes up to 1000 additionally below what the cost model predicts for that very input',
-           'rule': 'content classes random / equal / disjoint / shifted / one side short / binary alphabet / block dropped or added at the front or back and sliding window with the block length within 8 of n/2, n/4, n/8, n/16; entry points hirschberg and derive-generated diff; distinct_nontrivial = distinct (class, n, m, entry point)',
+    cov = {'explanation': 'Lean theorem C18.peak_cells_linear: the cost model (peak live table cells of the divide-and-conquer recursion, same split points as the model of the algorithm) is bounded by (cutoff+3)(n+m+1) for all lists; tie: a counting global allocator measures the peak heap growth of the REAL hirschberg and of diff() on a derived struct with an ordered_array_like field, for thirteen content classes and sizes up to 6000 (quick) / 30000 (thorough), and requires it to stay below 16 B x that bound + 8 B x (n+m) + 128 B x script entries + slack; for sizes up to 1000 additionally below what the cost model predicts for that very input',
+           'rule': 'content classes random / equal / disjoint / shifted / one side short / binary alphabet / block dropped or added at the front or back and sliding window with the block length within 8 of n/2, n/4, n/8, n/16 / runs of r new elements before every c common ones (many insert-only or delete-only windows along the list); entry points hirschberg and derive-generated diff; distinct_nontrivial = distinct (class, n, m, entry point)',
            'obligations': res.proof['obligations'], 'discharged': res.proof['discharged']}
     return core.finish(res, LEVEL, cov, ASSUMPTIONS, proof_ok, search)
